@@ -275,6 +275,10 @@ def run(ctx, report: Report) -> None:
     from .e2ematch import lookalike_table
     lookalike_table(ctx, r9)
 
+    # a compound designates the intersection of its simple selectors, whatever families they come from and in either order
+    from .e2ematch import compound_conjunction_table
+    compound_conjunction_table(ctx, r9, deep=(ctx.tier == 'thorough'))
+
 
 
 def comma_reset_rule(ctx, r7):
